@@ -58,8 +58,10 @@ class CogEOS(Obligation):
             if p in ps:
                 d.append(T.gt(V(p), T.ZERO))
         if 'gamma' in ps:
-            d.append(T.ne(V('gamma'), T.ONE))
-            d.append(T.gt(V('gamma'), T.ZERO))
+            if self.name in ('Cog4', 'Cog12'):      # documented: T > 0 only for gamma < 1
+                d += [T.gt(V('gamma'), T.ZERO), T.lt(V('gamma'), T.ONE)]
+            else:
+                d.append(T.gt(V('gamma'), T.ONE))
         if 'tau' in ps:
             d.append(T.lt(V('t'), V('tau')))
         return d
